@@ -141,6 +141,10 @@ class _Break(Exception):
     pass
 
 
+class _Continue(Exception):
+    pass
+
+
 UNIT = ()
 STD_FLOAT_CONSTS = {}
 for _pre in ("std::f64::", "core::f64::", "f64::", "core::f64::<impl f64>::", "std::f64::<impl f64>::"):
@@ -987,6 +991,8 @@ class Interp:
             return ListV([])
         if cn in ("std::string::String::new", "alloc::string::String::new", "std::string::String::with_capacity"):
             return Rope()
+        if cn in ("indexmap::IndexMap::new", "indexmap::IndexMap::with_capacity", "std::collections::HashMap::new", "std::collections::BTreeMap::new", "indexmap::IndexSet::new", "std::collections::HashSet::new"):
+            return ListV([])
         if cn in ("std::convert::From::from", "std::convert::Into::into") and len(args) == 1:
             r = self.local_from(args[0], base_ty(self.F.ty(n) or ""))
             if r is not None:
@@ -1198,6 +1204,9 @@ class Interp:
                 return r
             recv.buf.add(r)
             return Var(OK_PATHS[0], [UNIT])
+        if name == "push" and isinstance(recv, Rope) and len(args) == 1 and isinstance(args[0], str):
+            recv.add(args[0])
+            return UNIT
         if name == "push_str" and isinstance(recv, Rope):
             r = self.display(args[0])
             if is_unknown(r):
@@ -1250,6 +1259,19 @@ class Interp:
                 if r:
                     return Var(SOME_PATHS[0], [x if name == "find" else i_])
             return Var(NONE_PATHS[0])
+        if name == "zip" and isinstance(recv, ListV) and len(args) == 1 and isinstance(args[0], ListV):
+            return ListV([(a_, b_) for a_, b_ in zip(recv.items, args[0].items)])
+        if name in ("skip", "take") and isinstance(recv, ListV) and len(args) == 1 and isinstance(args[0], int):
+            return ListV(recv.items[args[0]:] if name == "skip" else recv.items[:args[0]])
+        if name == "last" and isinstance(recv, ListV) and not args:
+            return Var(SOME_PATHS[0], [recv.items[-1]]) if recv.items else Var(NONE_PATHS[0])
+        if name == "sum" and isinstance(recv, ListV) and not args and all(isinstance(x, (int, float)) and not isinstance(x, bool) for x in recv.items):
+            tot = 0.0 if any(isinstance(x, float) for x in recv.items) or "f64" in (self.F.ty(n) or "") else 0
+            for x in recv.items:
+                tot = tot + x
+            return tot
+        if name == "count" and isinstance(recv, ListV) and not args:
+            return len(recv.items)
         if name == "chain" and isinstance(recv, ListV) and len(args) == 1 and isinstance(args[0], ListV):
             return ListV(list(recv.items) + list(args[0].items))
         if name == "filter" and isinstance(recv, ListV) and len(args) == 1:
@@ -1312,7 +1334,7 @@ class Interp:
                 rope.add(r)
             return rope
         if name == "contains" and isinstance(recv, ListV) and len(args) == 1 and not is_unknown(args[0]):
-            return any(x == args[0] for x in recv.items)
+            return any(_plain(x) == _plain(args[0]) for x in recv.items)
         if name == "get" and isinstance(recv, ListV) and len(args) == 1 and isinstance(args[0], int):
             return Var(SOME_PATHS[0], [recv.items[args[0]]]) if 0 <= args[0] < len(recv.items) else Var(NONE_PATHS[0])
         if name in ("trim_start_matches", "trim_end_matches", "starts_with", "ends_with", "trim", "trim_start", "trim_end") and isinstance(recv, (str, Rope)):
@@ -1434,6 +1456,38 @@ class Interp:
         if name == "fract" and not args and isinstance(recv, float):
             import math as _m
             return _m.fmod(recv, 1.0) if recv == recv and abs(recv) != float("inf") else float("nan")
+        if isinstance(recv, ListV) and all(isinstance(x, tuple) and len(x) == 2 for x in recv.items) and ("IndexMap" in cn or "HashMap" in cn or "BTreeMap" in cn or "map::Entry" in cn or "Entry" in cn):
+            key = _plain(args[0]) if args else None
+            if name == "entry" and len(args) == 1:
+                return Var("MAPENTRY", [recv, args[0]])
+            if name in ("get", "get_mut") and len(args) == 1:
+                for k_, v_ in recv.items:
+                    if _plain(k_) == key:
+                        return Var(SOME_PATHS[0], [v_])
+                return Var(NONE_PATHS[0])
+            if name == "contains_key" and len(args) == 1:
+                return any(_plain(k_) == key for k_, _ in recv.items)
+            if name == "insert" and len(args) == 2:
+                for i_, (k_, v_) in enumerate(recv.items):
+                    if _plain(k_) == key:
+                        recv.items[i_] = (k_, args[1])
+                        return Var(SOME_PATHS[0], [v_])
+                recv.items.append((args[0], args[1]))
+                return Var(NONE_PATHS[0])
+        if isinstance(recv, Var) and recv.path == "MAPENTRY" and name in ("or_default", "or_insert", "or_insert_with"):
+            m_, k0 = recv.args
+            for k_, v_ in m_.items:
+                if _plain(k_) == _plain(k0):
+                    return v_
+            if name == "or_default":
+                ty = self.F.ty(n) or ""
+                v_ = ListV([]) if ("Vec<" in ty or "IndexMap<" in ty) else (Rope() if "String" in ty else (0 if re.search(r"\b(usize|u64|i64|u32|i32)\b", ty) else (0.0 if "f64" in ty else Unknown("default of " + ty))))
+            elif name == "or_insert":
+                v_ = args[0]
+            else:
+                v_ = self.apply(args[0], [])
+            m_.items.append((k0, v_))
+            return v_
         if name in ("values", "keys") and not args and isinstance(recv, ListV) and all(isinstance(x, tuple) and len(x) == 2 for x in recv.items):
             return ListV([x[1] if name == "values" else x[0] for x in recv.items])
         if name == "is_zero" and not args and isinstance(recv, (int, float)) and not isinstance(recv, bool):
@@ -1538,10 +1592,54 @@ class Interp:
         it = self.ev(n["iter"], env)
         if not isinstance(it, ListV):
             return Unknown("for over non-list")
-        for x in it.items:
+        for x in list(it.items):
             if self.bind(n["pat"], x, env) is not True:
                 return Unknown("for pattern")
-            r = self.ev(n["body"], env)
+            try:
+                r = self.ev(n["body"], env)
+            except _Continue:
+                continue
+            except _Break:
+                break
             if is_unknown(r):
                 return r
         return UNIT
+
+    def ev_While(self, n, env):
+        for _ in range(100000):
+            c = self.ev(n["cond"], env)
+            if c is False:
+                return UNIT
+            if c is not True:
+                return Unknown("while condition undecidable: %r" % (c,))
+            try:
+                r = self.ev(n["body"], env)
+            except _Continue:
+                continue
+            except _Break:
+                break
+            if is_unknown(r):
+                return r
+        else:
+            return Unknown("while loop bound exceeded")
+        return UNIT
+
+    def ev_Loop(self, n, env):
+        for _ in range(100000):
+            try:
+                r = self.ev(n["body"], env)
+            except _Continue:
+                continue
+            except _Break as b:
+                return getattr(b, "v", UNIT)
+            if is_unknown(r):
+                return r
+        return Unknown("loop bound exceeded")
+
+    def ev_Continue(self, n, env):
+        raise _Continue()
+
+    def ev_Break(self, n, env):
+        b = _Break()
+        b.v = self.ev(n["e"], env) if n.get("e") is not None else UNIT
+        raise b
